@@ -134,6 +134,15 @@ class ReVal(object):
     def abs_truth(self):
         return True
 
+    def abs_getattr(self, it, st, name):
+        if name == "pattern":
+            return self.rx.pattern
+        if name == "groupindex":
+            return st.alloc(HObj("dict", kind="dict", items=list(self.rx.groupindex.items())))
+        if name == "groups":
+            return self.rx.groups
+        return KeyError
+
     def abs_call(self, it, st, name, args, kwargs, node):
         if name in ("sub", "split", "findall", "subn") and all(isinstance(a, (str, int)) for a in args) and not kwargs:
             r = getattr(self.rx, name)(*args)
@@ -329,6 +338,14 @@ def str_method(self, st, s, name, args, kwargs, node):
     return [(st, "val", Top("str." + name, inp))]
 
 
+def _hashable_key(k):
+    try:
+        hash(k)
+        return True
+    except TypeError:
+        return False
+
+
 def _plain(v):
     if isinstance(v, tuple):
         return all(_plain(x) for x in v)
@@ -414,6 +431,22 @@ def list_method(self, st, ref, o, name, args, kwargs, node):
     if name in ("sort", "reverse", "clear"):
         if name == "clear":
             o.items = [] if o.items is not None else None
+        elif name == "reverse" and o.items is not None:
+            o.items = list(reversed(o.items))
+        elif name == "sort" and o.items is not None and len(o.items) > 1:
+            keyf = kwargs.get("key")
+            keys = []
+            for x in o.items:
+                if keyf is None:
+                    k_ = x
+                else:
+                    outs = apply(self, st, keyf, [x], {}, node)
+                    k_ = outs[0][2] if len(outs) == 1 and outs[0][1] == "val" and outs[0][0] is st else KeyError
+                keys.append(k_)
+            if all(isinstance(k_, (int, float, str)) and not isinstance(k_, bool) for k_ in keys) and len({type(k_) for k_ in keys}) == 1:
+                order = sorted(range(len(keys)), key=lambda i: keys[i], reverse=bool(kwargs.get("reverse")))
+                o.items = [o.items[i] for i in order]
+            # otherwise: order unknown to the abstraction; the items are kept as they are (multiset preserved)
         return [(st, "val", None)]
     if name == "copy":
         c = o.copy()
@@ -676,7 +709,28 @@ def call_builtin(self, st, name, args, kwargs, node):
             if isinstance(v, Ref) and st.obj(v).kind == "dict" and st.obj(v).items is not None:
                 items = list(st.obj(v).items) + items
             else:
-                return [(st, "val", Top("dict()", False))]
+                pairs = None
+                if not isinstance(v, Top):
+                    try:
+                        kind, seq = self.iter_values(st, v, node)
+                    except AnalysisError:
+                        kind, seq = None, None
+                    if kind == "concrete":
+                        pairs = []
+                        for x in seq:
+                            if isinstance(x, Ref) and st.obj(x).kind == "list" and st.obj(x).items is not None and len(st.obj(x).items) == 2:
+                                x = tuple(st.obj(x).items)
+                            if isinstance(x, tuple) and len(x) == 2:
+                                pairs.append(x)
+                            else:
+                                pairs = None
+                                break
+                if pairs is None:
+                    return [(st, "val", Top("dict()", False))]
+                d = {}
+                for k_, v_ in pairs + items:
+                    d[k_ if _hashable_key(k_) else vkey(k_)] = (k_, v_)
+                items = list(d.values())
         return [(st, "val", st.alloc(HObj("dict", kind="dict", items=items)))]
     if name == "bool":
         if not args:
